@@ -144,6 +144,39 @@ func checkC13(tier string) *Report {
 	}
 	x := &Explorer{Rep: rep, Prefix: alpha, Depth: depth, Budget: budgetFromEnv(map[string]int{"quick": 8, "thorough": 90}[tier])}
 	x.OnState = func(wk *Worker, n Node, ctx sdk.Context, _ any) {
+		// the exported ledger is the reference every request is judged against — so it must itself be the fold of the updates
+		// that produced this state (otherwise a listing and the export could lose the same entry together and agree)
+		in, out, cnt := map[string]int64{}, map[string]int64{}, map[string]uint64{}
+		for _, k := range n.Path {
+			u := menu[k]
+			dst := "4:noble"
+			var d uint32
+			if strings.HasPrefix(u.Fwd, "cctp:") {
+				fmt.Sscanf(u.Fwd, "cctp:%d", &d)
+				dst = fmt.Sprintf("2:%d", d)
+			} else if strings.HasPrefix(u.Fwd, "hyp:") {
+				fmt.Sscanf(u.Fwd, "hyp:%d", &d)
+				dst = fmt.Sprintf("3:%d", d)
+			}
+			route := fmt.Sprintf("%d:%s|%s", int32(u.SrcProto), u.SrcCP, dst)
+			in[route+"|"+u.Denom] += u.Amt
+			out[route+"|"+u.Denom] += u.Amt - u.Amt/10
+			cnt[route]++
+		}
+		var want []string
+		for k := range in {
+			want = append(want, fmt.Sprintf("A %s in=%d out=%d", k, in[k], out[k]))
+		}
+		for k, v := range cnt {
+			want = append(want, fmt.Sprintf("C %s n=%d", k, v))
+		}
+		sort.Strings(want)
+		got, _ := wk.W.exportedStats(ctx, nil)
+		if strings.Join(got, "\n") != strings.Join(want, "\n") {
+			rep.Violate(Violation{Kind: "exported-ledger-is-not-the-fold-of-the-updates", Sig: strings.Join(pathLabels(alpha, n.Path), " ; "), Replay: mustJSON(map[string]any{"ops": n.Ops(alpha)}),
+				What: fmt.Sprintf("after the updates [%s] the exported ledger is %v, the fold of the updates is %v", strings.Join(pathLabels(alpha, n.Path), " ; "), got, want)})
+			return
+		}
 		c13CheckLedger(rep, wk.W, ctx, strings.Join(pathLabels(alpha, n.Path), " ; "), n.Ops(alpha))
 	}
 	x.RunOn(worlds)
